@@ -81,8 +81,15 @@ def cases(seed, tier):
             # the client's other direction (client-to-server) differs: the rule is judged on the lists the report shows
             c2s = {'enc': r2.choice([['aes128-ctr'], ['chacha20-poly1305@openssh.com', 'aes256-cbc'], ['aes128-gcm@openssh.com', '3des-cbc']]),
                    'mac': r2.choice([['hmac-sha2-256'], ['hmac-sha2-512-etm@openssh.com'], ['umac-128-etm@openssh.com', 'hmac-sha1']])}
-        yield {'cell': cell, 'role': role, 'marker': marker, 'profile': prof, 'c2s': c2s, 'opts': rng.choice([['-n'], ['-n'], ['-j'], ['-n', '-b'], ['-n', '-v']]),
-               'nets': [{'rtt_us': 200}, gen.rand_net(rng)] if rng.random() < 0.3 else [{'rtt_us': 200}], 'pseed': rng.getrandbits(32)}
+        c = {'cell': cell, 'role': role, 'marker': marker, 'profile': prof, 'c2s': c2s, 'opts': rng.choice([['-n'], ['-n'], ['-j'], ['-n', '-b'], ['-n', '-v']]),
+             'nets': [{'rtt_us': 200}, gen.rand_net(rng)] if rng.random() < 0.3 else [{'rtt_us': 200}], 'pseed': rng.getrandbits(32)}
+        r3 = gen.case_rng(seed, ID, i, 'after')
+        if role == 'server' and r3.random() < 0.2:
+            # the same server audited as the second target of one invocation (one worker), after a server that offers the same ciphers
+            # and MACs with the marker situation inverted: what the first target earned must not show on, or be missing from, the second
+            c['after_inverted'] = True
+            c['nets'] = c['nets'][:1]
+        yield c
 
 
 # the rule is about the lists, not about who the peer says it is: every software family the tool treats specially somewhere
@@ -106,6 +113,40 @@ def _plan(case, net):
     return gen.server_plan(case['pseed'], list(case['opts']) + ['--skip-rate-test', 'srv.example:2222'], case['profile'], port=2222, net=net)
 
 
+def _run_second(case, ctx):
+    """Audit the case's server as the second of two targets handled by one worker; the first offers the same lists with the marker
+    situation inverted (exposed if the case's server is protected, protected if it is exposed).  Returns the record with stdout
+    narrowed to the second target's block / JSON element."""
+    import json
+    import re
+    from . import multi as mt
+    prof = case['profile']
+    other = copy.deepcopy(prof)
+    markers = list(refmodels.MARKER.values())
+    if any(m in prof['kex'] for m in markers):
+        other['kex'] = [k for k in prof['kex'] if k not in markers]
+    else:
+        other['kex'] = list(prof['kex']) + [refmodels.MARKER['server']]
+    two = [{'kind': 'server', 'host': 'other.example', 'ip': '192.0.2.9', 'port': 2222, 'profile': other},
+           {'kind': 'server', 'host': 'srv.example', 'ip': '192.0.2.10', 'port': 2222, 'profile': prof}]
+    rec = ctx.run(mt.multi_plan({'targets': two, 'pseed': case['pseed'], 'sched': {'policy': 'run_to_block', 'seed': 0}}, list(case['opts']), 1, ctx.scratch()))
+    if rec.get('harness_error'):
+        return None
+    mine = None
+    if '-j' in case['opts']:
+        doc, err = report.parse_json(rec['stdout'])
+        for d in doc if isinstance(doc, list) else []:
+            if mt.json_target(d, two) == 1:
+                mine = json.dumps(d)
+    else:
+        for b in re.split(r'(?m)^-{80}$', rec['stdout']):
+            if mt.block_target(report.strip_ansi(b), two) == 1:
+                mine = b
+    if mine is None:
+        return dict(rec, no_block=True)
+    return dict(rec, stdout=mine)
+
+
 def run_case(case, ctx):
     out, keys = [], []
     prof = case['profile']
@@ -113,7 +154,14 @@ def run_case(case, ctx):
     stdouts = []
     rec = None
     for net in case['nets']:
-        rec = ctx.run(_plan(case, net))
+        if case.get('after_inverted'):
+            rec = _run_second(case, ctx)
+            if rec is None:
+                return {'violations': [], 'keys': []}
+            if rec.get('no_block'):
+                return {'violations': [viol('C04 no result for the second target of the invocation', rec['stdout'][-500:])], 'keys': []}
+        else:
+            rec = ctx.run(_plan(case, net))
         if rec.get('harness_error'):
             return {'violations': [], 'keys': []}
         stdouts.append(rec['stdout'])
@@ -188,7 +236,7 @@ def run_case(case, ctx):
     if bad:
         out.append(viol('C04 a ChaCha/CBC/ETM algorithm is recommended for addition', repr(bad)))
     keys.append(h(case['cell'], sorted(prof['enc']), sorted(prof['mac']), sorted(prof['kex'])))
-    return {'violations': out, 'keys': keys, 'counters': {'cell_%02d' % case['cell']: 1}}
+    return {'violations': out, 'keys': keys, 'counters': dict({'cell_%02d' % case['cell']: 1}, **({'second target after a server with the marker situation inverted': 1} if case.get('after_inverted') else {}))}
 
 
 def shrink(case):
